@@ -441,6 +441,20 @@ POLICY_VARIANTS = [
 ]
 
 
+def pair_plans(plans, rng, cap=300):
+    """pairwise combinations of single-variable choices (different variables) for deeper tiers"""
+    singles = [p for p in plans if len(p) == 1]
+    out = []
+    for i in range(len(singles)):
+        for j in range(i + 1, len(singles)):
+            a, b = singles[i], singles[j]
+            if list(a)[0] != list(b)[0]:
+                out.append({**a, **b})
+    if len(out) > cap:
+        out = rng.sample(out, cap)
+    return out
+
+
 def vectors_for(cdc, c, seed, k_random, with_choices=True, max_choice=400):
     """Yield (class, vals) canonical values for container c."""
     base = random.Random(f'{seed}:{cdc.env.key}:{c.name}')
@@ -453,5 +467,8 @@ def vectors_for(cdc, c, seed, k_random, with_choices=True, max_choice=400):
             plans = base.sample(plans, max_choice)
         for j, f in enumerate(plans):
             yield f'choice{j}', Gen(cdc, random.Random(base.getrandbits(64)), force=f).container(c)
+        if k_random >= 100:   # thorough tiers
+            for j, f in enumerate(pair_plans(plans, base)):
+                yield f'pair{j}', Gen(cdc, random.Random(base.getrandbits(64)), force=f).container(c)
     for j in range(k_random):
         yield f'rand{j}', Gen(cdc, random.Random(base.getrandbits(64))).container(c)
